@@ -204,7 +204,7 @@ class Walker:
     """
 
     def __init__(self, root, dot=False, icase=False, globstar=False, globstarlong=False, follow=False,
-                 scandotdir=False, matchbase=False, nodir=False, mark=False, extmatchbase=False, maxdepth=10, nodotdir=False,
+                 scandotdir=False, matchbase=False, nodir=False, mark=False, extmatchbase=False, maxdepth=26, nodotdir=False,
                  strict_links=False):
         self.root = root
         self.dot = dot
